@@ -149,6 +149,14 @@ def boolexpr(fn, n, env, inline, depth=0):
         if fs and inline:
             return inline_call(fn, n, fs[0], env, inline, depth)
         return ('atom', term(fn, n, env))
+    if c == 'DeclRefExpr':
+        # a local `const bool x = <expr>;` stands for its initialiser (it cannot change afterwards)
+        d = fn.decl(n)
+        if d.get('kind') == 'var' and d.get('id') not in env:
+            vd = fn.var_decls().get(d['id'])
+            vt = fn.tu.type(vd['t']) if vd else None
+            if vd and vd.get('init') and vt and vt.get('const') and not vt.get('ref') and vt.get('s', '').replace('const ', '').strip() == 'bool':
+                return boolexpr(fn, vd['init'], env, inline, depth + 1)
     if c == 'DeclRefExpr' or c == 'MemberExpr':
         return ('atom', term(fn, n, env))
     if c == 'ConditionalOperator':
